@@ -7,6 +7,7 @@ package traefikoidc
 // operation, the result and a projection of the real internal state.
 
 import (
+	"sort"
 	"encoding/json"
 	"fmt"
 	"os"
@@ -36,6 +37,7 @@ type vfCacheCase struct {
 	ID    int           `json:"id"`
 	Kind  string        `json:"kind"` // generator stream the case came from
 	Cap   int           `json:"cap"`
+	Wrap  bool          `json:"wrap,omitempty"` // operations go through the TokenCache wrapper (prefixed keys, claims maps) around the cache
 	Ops   []vfCacheOp   `json:"ops"`
 	Steps []vfCacheStep `json:"steps,omitempty"`
 }
@@ -44,7 +46,14 @@ func vfCacheKey(k int) string { return fmt.Sprintf("k%d", k) }
 
 func vfRunCacheCase(cs *vfCacheCase) {
 	c := vfNewCache(cs.Cap)
+	var tc *TokenCache
+	if cs.Wrap {
+		tc = vfWrapCache(c)
+	}
 	valOf := func(v interface{}) int64 {
+		if m, ok := v.(map[string]interface{}); ok { // the wrapper stores claims maps
+			v = m["v"]
+		}
 		if x, ok := v.(int64); ok {
 			return x
 		}
@@ -65,20 +74,54 @@ func vfRunCacheCase(cs *vfCacheCase) {
 		st := vfCacheStep{T: vnow + idx, Op: op}
 		switch op.O {
 		case "set":
-			c.Set(vfCacheKey(op.K), op.V, time.Duration(op.TTL))
+			if tc != nil {
+				tc.Set(vfCacheKey(op.K), map[string]interface{}{"v": op.V}, time.Duration(op.TTL))
+			} else {
+				c.Set(vfCacheKey(op.K), op.V, time.Duration(op.TTL))
+			}
 		case "get":
-			v, ok := c.Get(vfCacheKey(op.K))
+			var v interface{}
+			var ok bool
+			if tc != nil {
+				var m map[string]interface{}
+				m, ok = tc.Get(vfCacheKey(op.K))
+				v = m
+			} else {
+				v, ok = c.Get(vfCacheKey(op.K))
+			}
 			st.Hit = ok
 			if ok {
 				st.Out = valOf(v)
 			}
 		case "del":
-			c.Delete(vfCacheKey(op.K))
+			if tc != nil {
+				tc.Delete(vfCacheKey(op.K))
+			} else {
+				c.Delete(vfCacheKey(op.K))
+			}
 		case "cleanup":
-			c.Cleanup()
+			if tc != nil {
+				tc.Cleanup()
+			} else {
+				c.Cleanup()
+			}
 		}
 		last = time.Now()
 		st.State = vfCacheSnapshot(c, valOf)
+		if tc != nil { // the wrapper's keys carry its prefix: the model speaks about the caller's keys
+			strip := func(k string) string { return strings.TrimPrefix(k, "t-") }
+			for i := range st.State.Order {
+				st.State.Order[i] = strip(st.State.Order[i])
+			}
+			for i := range st.State.Items {
+				st.State.Items[i].Key = strip(st.State.Items[i].Key)
+			}
+			for i := range st.State.Elems {
+				st.State.Elems[i] = strip(st.State.Elems[i])
+			}
+			sort.Slice(st.State.Items, func(i, j int) bool { return st.State.Items[i].Key < st.State.Items[j].Key })
+			sort.Strings(st.State.Elems)
+		}
 		cs.Steps = append(cs.Steps, st)
 	}
 }
@@ -97,6 +140,7 @@ func vfGenCacheCase(r *vfRand, id int, profile string) *vfCacheCase {
 		nops = 8 + r.intn(40)
 	default:
 		cs.Kind = "mixed"
+		cs.Wrap = r.chance(1, 4)
 		cs.Cap = 1 + r.intn(8)
 		nkeys = 2*cs.Cap + 2
 		if r.chance(1, 3) { // histories that stay within capacity exercise the completeness clause
@@ -328,6 +372,9 @@ func vfCacheCorpus() []*vfCacheCase {
 		{Kind: "corpus", Cap: 3, Ops: []vfCacheOp{ // cleanup removes expired only; delete; overwrite of an expired key
 			{O: "set", K: 0, V: 1, TTL: h}, {O: "set", K: 1, V: 2, TTL: 2 * h}, {O: "adv", D: 61 * m}, {O: "cleanup"},
 			{O: "get", K: 1}, {O: "get", K: 0}, {O: "set", K: 0, V: 5, TTL: h}, {O: "del", K: 1}, {O: "get", K: 0}, {O: "get", K: 1}}},
+		{Kind: "corpus", Cap: 3, Wrap: true, Ops: []vfCacheOp{ // through the wrapper: a live value re-stored with a non-positive lifetime is gone
+			{O: "set", K: 0, V: 1, TTL: h}, {O: "get", K: 0}, {O: "set", K: 0, V: 2, TTL: 0}, {O: "get", K: 0}, {O: "cleanup"}, {O: "get", K: 0},
+			{O: "set", K: 1, V: 3, TTL: h}, {O: "set", K: 1, V: 4, TTL: -h}, {O: "get", K: 1}, {O: "del", K: 0}, {O: "get", K: 0}}},
 		{Kind: "corpus", Cap: 2, Ops: []vfCacheOp{ // cleanup at 95% of a lifetime keeps the entry
 			{O: "set", K: 0, V: 1, TTL: 5 * h}, {O: "adv", D: 299 * m}, {O: "cleanup"}, {O: "get", K: 0}}},
 	}
